@@ -33,6 +33,9 @@ def norm_callee(c):
     c = re.sub(r'\bnum_traits::', '', c)
     c = re.sub(r'\bcore::(?:ops|cmp|option|result|convert)::', '', c)
     c = re.sub(r'\bops::', '', c)
+    c = re.sub(r'\bpairings::<impl (Fq12)>::pow\b', r'Fq12::pow_u128', c)
+    c = re.sub(r'\bpairings::<impl (\w+)>::', r'\1::', c)
+    c = re.sub(r'\bpairings::<impl G<G2Params>>::', 'G2::', c)
     c = c.replace('<P as GroupParams>::Base', 'Base')
     c = re.sub(r'<(G1Params|G2Params) as GroupParams>::Base', 'Base', c)
     return c
@@ -112,6 +115,8 @@ class Contracts:
     def call(self, interp, func, st, callee, args):
         c = norm_callee(callee)
         for pat, h in self.extra.items():
+            if pat.startswith('__'):
+                continue
             if re.search(pat, c):
                 r = h(self, interp, func, st, c, args)
                 if r is not None:
@@ -165,6 +170,12 @@ class Contracts:
             if h:
                 return h(self, interp, func, st, c, args)
             raise Unsupported("conversion " + c)
+        m = re.match(r'^<(\w+) as Deref>::deref$', c)
+        if m:
+            k = self.extra.get('__consts__', {})
+            if m.group(1) in k:
+                return [(st, ('ref', ('u256', k[m.group(1)])))]
+            raise Unsupported("unknown static " + m.group(1))
         if re.search(r'as Clone>::clone$', c):
             return [(st, a[0])]
 
@@ -174,7 +185,31 @@ class Contracts:
             if r is not None:
                 self.used.append((c, 'field:%s::%s' % (ty, meth)))
                 return r
+        # ---- a crate-local callee without a registered contract (e.g. a helper introduced by an edit):
+        #      its MIR body is part of the program text, so it is executed in place of a contract
+        f = self.resolve_local(interp, c, ty, meth, len(args))
+        if f is not None:
+            self.used.append((c, 'inlined-body:' + f.name))
+            st.notes.append('inlined ' + f.name)
+            return list(interp.run(f, list(args), st))
         raise Unsupported("no contract for callee " + c)
+
+    def resolve_local(self, interp, c, ty, meth, nargs):
+        cands = []
+        for name, f in interp.funcs.items():
+            if '{closure' in name:
+                continue
+            if name.split('::')[-1] != meth or len(f.args) != nargs:
+                continue
+            cands.append(f)
+        if ty and len(cands) > 1:
+            hint = {'G': 'groups.rs', 'AffineG': 'groups.rs', 'G1': 'lib.rs', 'G2': 'lib.rs'}.get(ty, ty.lower() + '.rs')
+            c2 = [f for f in cands if hint in f.key[0]]
+            if c2:
+                cands = c2
+        if len(cands) == 1:
+            return cands[0]
+        return None
 
     # ---------------------------------------------------------------- Option helpers
     def opt_map(self, interp, st, args, c):
@@ -242,6 +277,40 @@ class Contracts:
         if meth == 'div2' and ty in ('Fq', 'Fq2', 'Base'):
             half = (st.facts.char + 1) // 2
             return [(st, A.scalar(T, x, half))]
+        if meth in ('mul_assign', 'add_assign', 'sub_assign'):
+            tgt = rawargs[0]
+            if not (isinstance(tgt, tuple) and tgt[0] == 'mref'):
+                raise Unsupported("assign operator without a mutable reference")
+            cur = interp.deref(st, tgt)
+            op = {'mul_assign': A.mul, 'add_assign': A.add, 'sub_assign': A.sub}[meth]
+            new = op(T, cur, a[1])
+            base = st.mem[(tgt[1], tgt[2])]
+            st.mem[(tgt[1], tgt[2])] = interp.set_field(base, list(tgt[3]), new)
+            return [(st, S('()', []))]
+        if meth == 'frobenius_map' and ty == 'Fq12' and isinstance(x, Poly):
+            # Fq12-atomic level: x -> x^(q^k) acts on a polynomial in the symbols by multiplying exponents (ring hom fixing F_q)
+            k = a[1]
+            if not (isinstance(k, tuple) and k[0] == 'int' and k[1] in (1, 2, 3, 6)):
+                raise Unsupported("frobenius_map power")
+            qk = st.facts.char ** k[1]
+            return [(st, Poly({tuple((v, e * qk) for v, e in m): c for m, c in x.t.items()}))]
+        if meth == 'frobenius_map' and ty in ('Fq4', 'Fq12'):
+            k = a[1]
+            if not (isinstance(k, tuple) and k[0] == 'int'):
+                raise Unsupported("frobenius_map with a symbolic power")
+            return [(st, frobenius_spec(A, ty, x, k[1], st.facts.char))]
+        if meth == 'pow_u128' and ty == 'Fq12':
+            k = a[1]
+            if not (isinstance(k, tuple) and k[0] == 'int'):
+                raise Unsupported("pow with a symbolic exponent")
+            if not isinstance(x, Poly):
+                raise Unsupported("Fq12::pow contract is only used at the Fq12-atomic level")
+            return [(st, x ** k[1])]
+        if meth == 'new' and ty in ('Fq', 'Fr') and len(a) == 1 and isinstance(a[0], tuple) and a[0][0] == 'u256':
+            # Fq::new(c) for a source constant c: Some(c) iff c < q   (contract of Fq::new, value view)
+            if a[0][1] < st.facts.char:
+                return [(st, Some(C(a[0][1])))]
+            return [(st, NONE)]
         if meth == 'is_zero':
             out = []
             for s, z in self.fork_all_zero(st, self.leaves(x), 'is_zero'):
@@ -297,6 +366,10 @@ class Contracts:
     def inverse_contract(self, st, ty, x):
         """inverse(x) = None iff x = 0 ; Some(y) with x*y = 1 otherwise.
         For a structured x the inverse is  conj-product / norm  with a single base-ring inverse (spec formula)."""
+        if isinstance(x, Poly) and self.extra.get('__monomial__') and len(x.t) == 1 and list(x.t.values())[0] == 1:
+            # exponent domain: (X^e)^-1 = X^-e for the non-zero symbol X
+            (m, c), = x.t.items()
+            return [(st, Some(Poly({tuple((v, -e) for v, e in m): 1})))]
         if isinstance(x, Poly):
             out = []
             for s, z in self.fork_zero(st, x, 'inv_arg'):
@@ -347,3 +420,54 @@ def spec_inverse_fraction(ty, x):
     num_n, den = spec_inverse_fraction(below, n)
     adj = tower.mk(ty, [t0, t1, t2])
     return A.mul(ty, adj, num_n), den
+
+
+# --------------------------------------------------------------------------
+# Frobenius: x -> x^(q^k) written from the definition of the tower (A2), constants by exact computation
+
+_frob_consts = {}
+
+def _u_pow(e, q):
+    """u^e in Fq2 = F_q[u]/(u^2+2) as (c0, c1) integers"""
+    key = (e, q)
+    if key in _frob_consts:
+        return _frob_consts[key]
+    import tower as tw
+    num = tw.Algebra(tw.ModLeaf(q))
+    r = tw.pow_num(num, 'Fq2', tw.mk('Fq2', [0, 1]), e)
+    _frob_consts[key] = (r[2][0], r[2][1])
+    return _frob_consts[key]
+
+def _const2(A, c):
+    z = A.L.zero()
+    def lift(n):
+        if isinstance(z, Poly):
+            return C(n)
+        return n
+    return tower.mk('Fq2', [lift(c[0]), lift(c[1])])
+
+def frob_fq2(A, x, k):
+    return A.conj('Fq2', x) if k % 2 else x
+
+def frob_fq4_plain(A, x, k, q):
+    """(c0 + c1 v)^(q^k) = c0^(q^k) + c1^(q^k) * v^(q^k),  v^(q^k) = v * u^((q^k-1)/2)"""
+    c0, c1 = A.comps('Fq4', x)
+    delta = _const2(A, _u_pow((q ** k - 1) // 2, q))
+    return tower.mk('Fq4', [frob_fq2(A, c0, k), A.mul('Fq2', frob_fq2(A, c1, k), delta)])
+
+def frobenius_spec(A, ty, x, code, q):
+    """Fq12: code = k.  Fq4: code = 10*k + j computes the w^j-coefficient map  c -> c^(q^k) * w^(j(q^k-1))  (w^6 = u)"""
+    if ty == 'Fq12':
+        k = code
+        if k not in (1, 2, 3, 6):
+            raise Unsupported("frobenius power %d" % k)
+        cs = A.comps('Fq12', x)
+        return tower.mk('Fq12', [frobenius_spec(A, 'Fq4', cs[j], 10 * k + j, q) for j in range(3)])
+    k, j = divmod(code, 10)
+    if k not in (1, 2, 3, 6) or j not in (0, 1, 2):
+        raise Unsupported("frobenius code %d" % code)
+    assert (q ** k - 1) % 6 == 0
+    gamma = _const2(A, _u_pow(j * (q ** k - 1) // 6, q))
+    y = frob_fq4_plain(A, x, k, q)
+    c0, c1 = y[2]
+    return tower.mk('Fq4', [A.mul('Fq2', c0, gamma), A.mul('Fq2', c1, gamma)])
